@@ -100,20 +100,31 @@ def r141(ctx):
     lp = tree.func(PATH, "load_path")
     lfl = flow_of(lp)
     seen = {}
+    # row variables: targets of the loops over the rows of the trajectory table (any naming)
+    rowvars = set()
+    for L in [x for x in walk_local(lp) if isinstance(x, ast.For)]:
+        if "'data'" in ast.unparse(L.iter).replace('"', "'"):
+            for t_ in ast.walk(L.target):
+                if isinstance(t_, ast.Name):
+                    rowvars.add(t_.id)
+
+    def row_cols(v):
+        return [ast.literal_eval(s_.slice) for s_ in ast.walk(v) if isinstance(s_, ast.Subscript) and isinstance(s_.value, ast.Name) and s_.value.id in rowvars and isinstance(s_.slice, ast.Constant)]
+
     for n in walk_local(lp):
         if isinstance(n, ast.Assign) and len(n.targets) == 1:
             v = n.value
-            txt = ast.unparse(v)
-            if isinstance(v, ast.Call) and dotted(v.func) == "os.path.join" and "snapshot[" in txt:
-                idx = [ast.literal_eval(s.slice) for s in ast.walk(v) if isinstance(s, ast.Subscript) and ast.unparse(s.value) == "snapshot"]
+            cols = row_cols(v)
+            if not cols:
+                continue
+            has_cmp = any(isinstance(x, ast.Compare) and any(isinstance(c_, ast.UnaryOp) and isinstance(c_.op, ast.USub) or (isinstance(c_, ast.Constant) and c_.value == -1) for c_ in x.comparators + [x.left]) for x in ast.walk(v))
+            if isinstance(v, ast.Call) and dotted(v.func) == "os.path.join":
                 sub = [a.value for a in v.args if isinstance(a, ast.Constant)]
-                seen["file"] = (idx[0] if idx else None, sub, n)
-            if "snapshot[" in txt and "== -1" in txt.replace(" ", " "):
-                idx = [ast.literal_eval(s.slice) for s in ast.walk(v) if isinstance(s, ast.Subscript) and ast.unparse(s.value) == "snapshot"]
-                seen["vel"] = (idx[0] if idx else None, n)
-            elif isinstance(v, ast.Call) and dotted(v.func) == "int" and "snapshot[" in txt and "==" not in txt:
-                idx = [ast.literal_eval(s.slice) for s in ast.walk(v) if isinstance(s, ast.Subscript) and ast.unparse(s.value) == "snapshot"]
-                seen["index"] = (idx[0] if idx else None, n)
+                seen["file"] = (cols[0], sub, n)
+            elif has_cmp:
+                seen["vel"] = (cols[0], n)
+            elif isinstance(v, ast.Call) and dotted(v.func) == "int":
+                seen["index"] = (cols[0], n)
     exp = {"file": 1, "index": 2, "vel": 3}
     for role, col in exp.items():
         if role in seen and seen[role][0] == col:
@@ -125,7 +136,12 @@ def r141(ctx):
     for n in walk_local(lp):
         if isinstance(n, ast.Assign) and isinstance(n.targets[0], ast.Attribute) and n.targets[0].attr in ("config", "vel_rev"):
             assigns[n.targets[0].attr] = n
-    if "config" in assigns and ast.unparse(assigns["config"].value).replace(" ", "") == "(snapshot[1],snapshot[2])" and "vel_rev" in assigns and ast.unparse(assigns["vel_rev"].value) == "snapshot[3]":
+    okf = False
+    if "config" in assigns and "vel_rev" in assigns:
+        cv, vv = assigns["config"].value, assigns["vel_rev"].value
+        if isinstance(cv, ast.Tuple) and len(cv.elts) == 2 and [row_cols(e) for e in cv.elts] == [[1], [2]] and row_cols(vv) == [3] and isinstance(vv, ast.Subscript):
+            okf = True
+    if okf:
         ctx.ok(rid, assigns["config"], "frame.config = (column 1, column 2), frame.vel_rev = column 3")
     else:
         ctx.bad(rid, assigns.get("config", lp), "load_path does not assign frame.config / frame.vel_rev from columns (1, 2) / 3")
@@ -148,15 +164,16 @@ def r142(ctx):
     of = tree.cls(FORMATTER, "OrderFormatter")
     fd = [s for s in of.body if isinstance(s, FUNC) and s.name == "format_data"][0]
     lead = 0
+    appended = {c.func.value.id for c in walk_local(fd) if isinstance(c, ast.Call) and isinstance(c.func, ast.Attribute) and c.func.attr == "append" and isinstance(c.func.value, ast.Name)}
     for n in walk_local(fd):
-        if isinstance(n, ast.Assign) and isinstance(n.value, ast.List) and path_of(n.targets[0]) == "towrite":
+        if isinstance(n, ast.Assign) and isinstance(n.value, ast.List) and isinstance(n.targets[0], ast.Name) and n.targets[0].id in appended:
             lead = len(n.value.elts)
     lp = tree.func(PATH, "load_path")
     drop = None
     for n in walk_local(lp):
         if isinstance(n, ast.Subscript) and isinstance(n.slice, ast.Tuple) and len(n.slice.elts) == 2 and isinstance(n.slice.elts[1], ast.Slice):
             lo = n.slice.elts[1].lower
-            if lo is not None and "orderfile" in ast.unparse(n):
+            if lo is not None and ".load()" in ast.unparse(n):
                 drop = ast.literal_eval(lo)
                 site = n
     if lead == 1 and drop == 1:
@@ -176,7 +193,14 @@ def r142(ctx):
     ap = [s for s in ef.body if isinstance(s, FUNC) and s.name == "apply_format"][0]
     ld = [s for s in ef.body if isinstance(s, FUNC) and s.name == "load"][0]
     w_ok = any(isinstance(n, ast.For) and ast.unparse(n.iter) == "enumerate(self.ENERGY_TERMS)" for n in walk_local(ap))
-    r_ok = any(isinstance(n, ast.Subscript) and ast.unparse(n) == "self.ENERGY_TERMS[i]" for n in walk_local(ld)) and any(isinstance(n, ast.Subscript) and ast.unparse(n).replace(" ", "") == "data[:,i+1]" for n in walk_local(ld))
+    r_ok = False
+    for n in walk_local(ld):
+        # <dict>[self.ENERGY_TERMS[v]] = <table>[:, v + 1]
+        if isinstance(n, ast.Assign) and isinstance(n.targets[0], ast.Subscript) and isinstance(n.targets[0].slice, ast.Subscript) and ast.unparse(n.targets[0].slice.value) == "self.ENERGY_TERMS" and isinstance(n.targets[0].slice.slice, ast.Name):
+            v = n.targets[0].slice.slice.id
+            val = n.value
+            if isinstance(val, ast.Subscript) and isinstance(val.slice, ast.Tuple) and len(val.slice.elts) == 2 and isinstance(val.slice.elts[0], ast.Slice) and ast.unparse(val.slice.elts[1]).replace(" ", "") in (f"{v}+1", f"1+{v}"):
+                r_ok = True
     if w_ok and r_ok and len(efmt) >= 1 + len(terms):
         ctx.ok(rid, ap, f"energy.txt: writer and reader index the same ENERGY_TERMS {terms} in the same order after one step column")
     else:
@@ -262,7 +286,9 @@ def r144(ctx):
         from_gen = any(k == "call" and key.endswith("_generate_file_names") for k, key in deps)
         # the frames are those of the copy
         loops = [l for l in walk_local(mp) if isinstance(l, ast.For) and st in list(walk_local(l))]
-        over_copy = any("path_copy.phasepoints" in ast.unparse(l.iter) for l in loops)
+        # the copy: the local bound to <param>.copy() that the function returns
+        copies = {n_.targets[0].id for n_ in walk_local(mp) if isinstance(n_, ast.Assign) and isinstance(n_.targets[0], ast.Name) and isinstance(n_.value, ast.Call) and isinstance(n_.value.func, ast.Attribute) and n_.value.func.attr == "copy" and not n_.value.args}
+        over_copy = any(f"{cn}.phasepoints" in ast.unparse(l.iter) for l in loops for cn in copies)
         if from_gen and over_copy:
             ctx.ok(rid, st, "every frame of the returned copy is re-pointed to the name generated under target_dir")
         else:
@@ -270,15 +296,18 @@ def r144(ctx):
     gen = tree.func(FORMATTER, "_generate_file_names")
     gfl = flow_of(gen)
     okg = False
+    gparams = [a.arg for a in gen.args.args]
+    tdir = gparams[1] if len(gparams) > 1 else "target_dir"
     for n in walk_local(gen):
-        if isinstance(n, ast.Assign) and path_of(n.targets[0]) == "dest" and isinstance(n.value, ast.Call) and dotted(n.value.func) == "os.path.join":
-            if n.value.args and path_of(n.value.args[0]) == "target_dir":
+        if isinstance(n, ast.Assign) and isinstance(n.targets[0], ast.Name) and isinstance(n.value, ast.Call) and dotted(n.value.func) == "os.path.join":
+            if n.value.args and path_of(n.value.args[0]) == tdir:
                 okg = True
                 ctx.ok(rid, n, "_generate_file_names: destination = os.path.join(target_dir, <file name>)")
     if not okg:
         ctx.bad(rid, gen, "_generate_file_names does not place destinations under target_dir")
     rets = [r for r in walk_local(mp) if isinstance(r, ast.Return)]
-    if all(path_of(r.value) == "path_copy" for r in rets) and rets:
+    copies = {n_.targets[0].id for n_ in walk_local(mp) if isinstance(n_, ast.Assign) and isinstance(n_.targets[0], ast.Name) and isinstance(n_.value, ast.Call) and isinstance(n_.value.func, ast.Attribute) and n_.value.func.attr == "copy" and not n_.value.args}
+    if all(path_of(r.value) in copies for r in rets) and rets:
         ctx.ok(rid, rets[0], "_move_path returns the re-pointed copy")
     else:
         ctx.bad(rid, mp, "_move_path does not return the re-pointed copy")
